@@ -21,8 +21,12 @@ for f in ('patch.diff', 'demo.diff', 'README.md', 'demo_cmd.txt'):
     if os.path.exists(f'{out}/{f}'):
         shutil.copy(f'{out}/{f}', f'{dest}/{f}')
 res = dict(confirmed={}, checks={})
-if skip_confirm and os.path.exists(f'{dest}/meta.json'):
-    res['confirmed'] = json.load(open(f'{dest}/meta.json')).get('verification', {}).get('confirmed', {})
+if os.path.exists(f'{dest}/meta.json'):
+    _old = json.load(open(f'{dest}/meta.json')).get('verification', {})
+    # results of checks not re-run now are kept (a re-run replaces the earlier result of the same check)
+    res['checks'] = dict(_old.get('checks', {}))
+    if skip_confirm:
+        res['confirmed'] = _old.get('confirmed', {})
 if not skip_confirm:
     wt = f'/tmp/sv-{name}'
     sh(f'git -C /repo worktree remove --force {wt}')
